@@ -64,6 +64,9 @@ type timeOpt struct{ OnEnd Callable }
 func (o *timeOpt) SetDefaultOptions() {}
 
 func timeCmd(fm *Frame, opts timeOpt, f Callable) error {
+	if f == nil {
+		return errs.BadValue{What: "function", Valid: "function", Actual: "$nil"}
+	}
 	t0 := time.Now()
 	err := f.Call(fm, NoArgs, NoOpts)
 	t1 := time.Now()
@@ -120,6 +123,9 @@ func (opts *benchmarkOpts) parse() (time.Duration, error) {
 }
 
 func benchmark(fm *Frame, opts benchmarkOpts, f Callable) error {
+	if f == nil {
+		return errs.BadValue{What: "function", Valid: "function", Actual: "$nil"}
+	}
 	minTime, err := opts.parse()
 	if err != nil {
 		return err
